@@ -169,7 +169,7 @@ def finish(prop: str, tier: str, seed: int, units: list, outcomes: list, known_l
     if violations:
         for o in violations:
             path = write_replay(prop, o.unit, o.cex, o.replayed)
-            print(f"[{prop}] {o.unit}: counterexample {o.cex} -> {o.replayed}")
+            print(f"[{prop}] {o.unit}: counterexample {str(o.cex)[:600]} -> {str(o.replayed)[:900]}")
             print(f"VIOLATION property={prop} replay={path}")
         return 1
     if unreplayed:
